@@ -126,6 +126,19 @@ def impl():
     return _impl
 
 
+# user kinds the creation path distinguishes: via -> (is_developer, is_service_account, login_id, creation can succeed)
+USER_KINDS = {
+    'callsite': (False, False, 'login-id', True),                       # ordinary user
+    'callsite-developer': (True, False, 'login-id', True),
+    'callsite-service-account': (False, True, None, True),
+    'callsite-service-account-with-login': (False, True, 'login-id', True),
+    'callsite-user-without-login': (False, False, None, False),         # documented refusal: EmptyLoginID
+    'callsite-developer-and-service-account': (True, True, 'login-id', False),  # documented refusal: MultipleUserTypes
+}
+CREATING_KINDS = [k for k, v in USER_KINDS.items() if v[3]]
+REFUSED_KINDS = [k for k, v in USER_KINDS.items() if not v[3]]
+
+
 def real_accepts(which, via, v):
     """-> (accepted, how)  how in {'ok','refused','raised:<Type>'}"""
     A, U, AuthUserError = impl()
@@ -143,7 +156,8 @@ def real_accepts(which, via, v):
     db = FakeDb()
     try:
         if which == 'username':
-            run_sync(A.insert_new_user(db, v, 'login-id', False, False))
+            is_dev, is_sa, login_id, _ = USER_KINDS[via]
+            run_sync(A.insert_new_user(db, v, login_id, is_dev, is_sa))
             col = 1
         else:
             run_sync(A.insert_new_user(db, 'svc-account', None, False, True, hail_identity='ident', hail_credentials_secret_name=v))
@@ -195,6 +209,8 @@ class Acc:
 
 ENTRY = {('username', 'direct'): 'is_valid_username', ('secret-name', 'direct'): 'validate_credentials_secret_name_input',
          ('username', 'callsite'): 'insert_new_user(username=...)', ('secret-name', 'callsite'): 'insert_new_user(hail_credentials_secret_name=...)'}
+for _via, (_d, _sa, _l, _) in USER_KINDS.items():
+    ENTRY['username', _via] = f'insert_new_user(username=..., login_id={_l!r}, is_developer={_d}, is_service_account={_sa})'
 
 
 def judge(acc, which, via, v, want, key, replay_v):
@@ -233,8 +249,11 @@ def _shard(arg):
             acc.inc('valid-secret-names')
         judge(acc, 'username', 'direct', s, uw, key, s)
         judge(acc, 'secret-name', 'direct', s, sw, key, s)
+        for via in CREATING_KINDS:  # every enumerated username x every user kind that can be created
+            judge(acc, 'username', via, s, uw, key, s)
         if len(s) <= callsite_len:
-            judge(acc, 'username', 'callsite', s, uw, key, s)
+            for via in REFUSED_KINDS:  # must never store anything, valid username or not
+                judge(acc, 'username', via, s, False, key, s)
             judge(acc, 'secret-name', 'callsite', s, sw, key, s)
         if len(samples) < 2 and len(s) == maxlen and (uw != sw):
             samples.append({'string': s, 'valid_username': uw, 'valid_secret_name': sw})
@@ -291,8 +310,9 @@ def _nonstr_shard(_):
     for i, (name, v) in enumerate(NONSTR):
         key = (0, [i])
         acc.inc('non-strings')
-        for via in ('direct', 'callsite'):
+        for via in ['direct'] + list(USER_KINDS):
             judge(acc, 'username', via, v, False, key, {'nonstr': i})
+        for via in ('direct', 'callsite'):
             if v is not None:  # None = "no secret name supplied": there is no name to accept or refuse
                 judge(acc, 'secret-name', via, v, False, key, {'nonstr': i})
     return acc, []
@@ -333,7 +353,7 @@ def check(tier, seed, procs):
                 'nearest non-members (misplaced/doubled separators, one foreign character such as LF, NUL, uppercase, non-ASCII) - counted on this run',
         'samples': samples + [{'nonstr': NONSTR[0][0]}, {'string': 'a\n'}],
         'exhaustive': True,
-        'bounds': f'all strings of length <= {L} over {ALPHABET!r} for the two validators; length <= {cs} through insert_new_user; {len(NONSTR)} non-str values',
+        'bounds': f'all strings of length <= {L} over {ALPHABET!r} for the two validators; the same strings as usernames through insert_new_user for user kinds {CREATING_KINDS}; length <= {cs} for the always-refused kinds {REFUSED_KINDS} and for secret names through insert_new_user; {len(NONSTR)} non-str values',
         'strings': c.get('strings', 0),
         'valid_usernames_in_space': c.get('valid-usernames', 0),
         'valid_secret_names_in_space': c.get('valid-secret-names', 0),
@@ -357,6 +377,8 @@ def check(tier, seed, procs):
             'the reference DFAs agree with the 63 pinned examples of auth/test/test_auth_utils.py',
             '"accepts" = is_valid_username returns a true value / validate_credentials_secret_name_input returns without raising / '
             'insert_new_user executes the INSERT INTO users with the value; an exception of any type is a refusal',
+            'user kinds: ordinary user, developer, service account without / with login id must store exactly the valid usernames; a user without login id '
+            '(EmptyLoginID) and developer+service-account (MultipleUserTypes) are documented refusals and must store nothing, so a refused VALID username is not a violation there',
             'None as secret name means "no secret name supplied" and is not judged',
             'the 16 characters represent their classes (other lowercase letters behave like a/z, other controls like NUL/CR/LF ...); lengths above the bound are not covered',
             'insert_new_user runs over a recording fake Database/Transaction with no existing users (gear.transaction decorator is the real one)',
